@@ -104,6 +104,58 @@ def run(rep, tier, pool, variants=("shipped",)):
                     rep.violation(f"C16 generation run #{j + 1} inside one interpreter differs from the shipped parser in {len(d)} method(s)/table(s): {d[:6]}",
                                   {"property": "C16", "pair": "tasks/xonsh.gram -> peg_parser/parser.py", "history": f"tasks.generator.main() called {j + 1} time(s) in the same interpreter", "differing_methods": d[:50]})
                     break
+        # the documented steps under the OTHER interpreters the project supports (requires-python >= 3.10) that are installed
+        # here: what is generated must not depend on the interpreter's version
+        others = [i for i in ["/usr/bin/python3.11", "/root/.pyenv/versions/3.10.13/bin/python", "/root/.pyenv/versions/3.13.0/bin/python"] if Path(i).exists()]
+        for interp in (others if tier != "quick" else others[:2]):
+            env = dict(os.environ, PYTHONPATH=str(REPO), PYTHONHASHSEED="0")
+            o1 = tmp / f"parser_{Path(interp).parent.parent.name or 'sys'}_{others.index(interp)}.py"
+            pr = subprocess.run([interp, str(REPO / "tasks" / "generator.py"), "-o", str(o1)], env=env, capture_output=True, text=True, timeout=300, cwd="/")
+            programs += 1
+            rep.case(("xonsh.gram", "interpreter", interp), True)
+            if pr.returncode != 0:
+                rep.violation(f"C16 generation step fails under {interp}: {short(pr.stderr[-200:], 150)}", {"property": "C16", "step": "tasks/generator.py", "interpreter": interp, "stderr": pr.stderr[-2000:]})
+            else:
+                d = diff_methods(norm_methods(o1), shipped)
+                if d:
+                    rep.violation(f"C16 shipped peg_parser/parser.py differs from what {interp} generates from tasks/xonsh.gram in {len(d)} method(s): {d[:6]}", {"property": "C16", "interpreter": interp, "differing_methods": d[:50]})
+            o2 = tmp / f"meta_interp_{others.index(interp)}.py"
+            pr = subprocess.run([interp, "-m", "pegen", str(REPO / "pegen" / "metagrammar.gram"), "-o", str(o2), "-q"], env=env, capture_output=True, text=True, timeout=300, cwd=str(REPO))
+            programs += 1
+            rep.case(("metagrammar.gram", "interpreter", interp), True)
+            if pr.returncode != 0:
+                rep.violation(f"C16 metagrammar generation step fails under {interp}: {short(pr.stderr[-200:], 150)}", {"property": "C16", "step": "python -m pegen pegen/metagrammar.gram", "interpreter": interp, "stderr": pr.stderr[-2000:]})
+            else:
+                d = diff_methods(norm_module(o2), shipped_meta)
+                if d:
+                    rep.violation(f"C16 shipped pegen/grammar_parser.py differs from what {interp} generates from pegen/metagrammar.gram: {d[:6]}", {"property": "C16", "interpreter": interp, "differing": d[:50]})
+        # determinism is a property of the GENERATOR: other grammars (keywords that differ only in case, several helper rules of
+        # the same shape, soft keywords) generated under several hash seeds by both generators must come out identical
+        probes = {
+            "case_keywords": "start: ('select' | 'SELECT') a=NAME ('from' | 'FROM' | 'From') b=NAME ['where' c=NAME] NEWLINE { (a, b, c) }\n",
+            "helpers": "start: a=(x=NAME ',' { x })* b=(y=NAME ';' { y })+ c=[z=NUMBER '.' { z }] ('if' | \"match\" | 'IF') ','.NAME+ NEWLINE { (a, b, c) }\nother: \"case\" NAME | 'If' NUMBER | &'if' start\n",
+        }
+        for gname, gtext in probes.items():
+            gfile = tmp / f"{gname}.gram"
+            gfile.write_text(gtext)
+            outs = {}
+            for seed in ["0", "1", "2", "3", "5", "7"] if tier == "quick" else [str(k) for k in range(16)]:
+                o = tmp / f"{gname}_{seed}.py"
+                pr = regenerate(o, grammar=gfile, hashseed=seed)
+                o3 = tmp / f"{gname}_pegen_{seed}.py"
+                pr3 = subprocess.run([PY, "-m", "pegen", str(gfile), "-o", str(o3), "-q"], env=dict(os.environ, PYTHONPATH=str(REPO), PYTHONHASHSEED=seed), capture_output=True, text=True, timeout=120, cwd=str(REPO))
+                programs += 2
+                outs[seed] = (o.read_text() if pr.returncode == 0 and o.exists() else "ERR:" + pr.stderr[-300:], o3.read_text() if pr3.returncode == 0 and o3.exists() else "ERR:" + pr3.stderr[-300:])
+            rep.case(("probe-grammar", gname), True)
+            for which, label in ((0, "tasks/generator.py"), (1, "python -m pegen")):
+                texts = {sd: v[which] for sd, v in outs.items()}
+                if len(set(texts.values())) > 1:
+                    a, b = sorted(texts)[0], next(sd for sd in sorted(texts) if texts[sd] != texts[sorted(texts)[0]])
+                    import difflib
+
+                    dl = [ln for ln in difflib.unified_diff(texts[a].splitlines(), texts[b].splitlines(), lineterm="", n=0)][:12]
+                    rep.violation(f"C16 {label} is not deterministic across hash seeds on grammar '{gname}' (PYTHONHASHSEED={a} vs {b}): {short(' | '.join(dl[2:6]), 140)}",
+                                  {"property": "C16", "generator": label, "grammar": gtext, "hashseeds": [a, b], "diff": dl})
         prevm = None
         for i, seed in enumerate(seeds):
             out = tmp / f"meta_{i}.py"
